@@ -690,6 +690,10 @@ def check(ctx, rep):
              "text in its constructor; a TypeError/ValueError from there escapes every handle() and leaves the client without a reply)", floor=1)
     from .c12 import notfound_text_obligations
     notfound_text_obligations(ctx, rep, "R03l")
+    rep.rule("R03n", "= R10e: what a listing request leaves behind for later requests (the cached entries) is the entries themselves, pickled "
+             "completely - a cached answer is then the answer that would be generated afresh", floor=1)
+    from .c10 import complete_pickling_obligations
+    complete_pickling_obligations(ctx, rep, "R03n")
     rep.rule("R03m", "request text (selector, search string, header values, what was read back from an entry) is never the format string of a "
              "`%` or `.format()` operation, only an argument of one", floor=1)
     format_string_obligations(ctx, rep, "R03m")
